@@ -4,7 +4,7 @@
    continuation, [resume] = the next ParseTokens call), regexes generated from lexer.go. *)
 From Coq Require Import ZArith List Bool.
 From ZV Require Import Model.Regex Generated.LexTables Model.Lexer Model.Reader Model.TokScan Proofs.LexerProofs Proofs.ReaderProofs
-  Proofs.RegexProofs Proofs.ReaderTotal Proofs.LexerWF Proofs.ReaderUnfinished Proofs.SugarTokens Proofs.ScanSim Proofs.Unfinished.
+  Proofs.RegexProofs Proofs.ReaderTotal Proofs.LexerWF Proofs.ReaderUnfinished Proofs.SugarTokens Proofs.ScanSim Proofs.LexerBC Proofs.Unfinished.
 Import ListNotations.
 Open Scope Z_scope.
 
@@ -99,24 +99,30 @@ Proof. vm_compute. reflexivity. Qed.
    scanner (Proofs/ReaderUnfinished.v: trun = bracket depth over all bracket kinds, inside block
    comment / raw string, reader prefix % ^ ~ ~@ pending, last token is the symbol - / +;
    tfinal = depth 0, not inside, nothing pending; sunf = depth > 0 or inside or pending or sign).
-   Side condition curly_plain: no '{' token is directly followed by a comment token (then the '{'
-   look-ahead skips nothing; the proof does not cover the comment-skipping loop, and before the fix of
-   that case the statement was false there: done_implies_finished_before_fix_refuted_curly).  text_tokens text = the tokens of text ++ newline.
+   The comment-skipping loop of the '{' look-ahead is covered (cfix = true, the code as it is:
+   `lexer.tokens = lexer.tokens[extra:]`; before that fix the statement was false:
+   done_implies_finished_before_fix_refuted_curly).  bc_ok: every BeginBlockComment token is directly
+   followed by a Comment token — true of every token stream the lexer produces (lexer_bc_ok), so the
+   rune-level theorems 5c carry no side condition.  text_tokens text = the tokens of text ++ newline.
    The link between this token scanner and the rune scanner [unfinished] is 5c below. ---- *)
-Theorem done_implies_finished : forall cfix fuel text acc f st,
-  parse_whole true cfix fuel text = ODone acc f ->
-  curly_plain (text_tokens text) = true ->
+Theorem lexer_bc_ok : forall text, bc_ok (l_tokens (lres_state (lex_all init_lstate text))) = true.
+Proof. exact LexerBC.lexer_bc_ok. Qed.
+Print Assumptions lexer_bc_ok.
+
+Theorem done_implies_finished : forall fuel text acc f st,
+  parse_whole true true fuel text = ODone acc f ->
+  bc_ok (text_tokens text) = true ->
   trun st0 (text_tokens text) = Some st -> tfinal st = true.
 Proof. exact ReaderUnfinished.done_implies_finished. Qed.
 Print Assumptions done_implies_finished.
 
-(* the parser suspended wanting more than n tokens with toks still queued: the tokens consumed so far
-   leave the scanner unfinished or right after a sign symbol (the known finding) *)
-Theorem more_implies_unfinished : forall cfix fuel text acc n toks k st,
-  parse_whole true cfix fuel text = OSusp acc n toks k ->
-  curly_plain (text_tokens text) = true ->
+(* the parser suspended wanting more than n tokens with toks still queued: the scanner over ALL tokens
+   is unfinished or right after a sign symbol (sunf st), and so was it over the tokens consumed so far *)
+Theorem more_implies_unfinished : forall fuel text acc n toks k st,
+  parse_whole true true fuel text = OSusp acc n toks k ->
+  bc_ok (text_tokens text) = true ->
   trun st0 (text_tokens text) = Some st ->
-  (length toks <= n)%nat /\ exists sts, trun sts toks = Some st /\ sunf sts = true.
+  (length toks <= n)%nat /\ sunf st = true /\ exists sts, trun sts toks = Some st /\ sunf sts = true.
 Proof. exact ReaderUnfinished.more_implies_unfinished. Qed.
 Print Assumptions more_implies_unfinished.
 
@@ -136,37 +142,34 @@ Print Assumptions done_implies_finished_before_fix_refuted_curly.
    (A) done_not_unfinished: lexically_ok text -> parse text = Done -> text is not an unfinished prefix
        (contrapositive of `lexically_ok -> unfinished -> not Done`; an unfinished text may still be a
        hard error, e.g. "(]" + "(", so `= NeedMore` holds exactly when the parse is not Err);
-   (B) more_finished_is_sign: lexically_ok text -> parse text = NeedMore (every yield except those of the
-       '{' look-ahead, n = 0) -> text NOT unfinished -> the last token is the symbol - or +
+   (B) more_finished_is_sign: lexically_ok text -> parse text = NeedMore (every yield, including those of
+       the '{' look-ahead) -> text NOT unfinished -> the last token is the symbol - or +
        (i.e. NeedMore -> unfinished \/ ends_in_sign_symbol).
    (B') more_top_unfinished: the other request for more input (OMoreTop: the text ends inside a string
        or char literal) is an unfinished prefix for the scanner too.
-   Side condition: curly_plain (5b). ---- *)
+   No side condition besides lexical correctness. ---- *)
 Theorem scan_simulates_lexer : forall text s', lex_all init_lstate text = LOk s' -> Rel (scan text) s'.
 Proof. exact ScanSim.scan_simulates_lexer. Qed.
 Print Assumptions scan_simulates_lexer.
 
-Theorem done_not_unfinished : forall cfix fuel text acc f s',
+Theorem done_not_unfinished : forall fuel text acc f s',
   lex_all init_lstate (text ++ nl) = LOk s' ->
-  parse_whole true cfix fuel text = ODone acc f ->
-  curly_plain (text_tokens text) = true ->
+  parse_whole true true fuel text = ODone acc f ->
   unfinished text <> Some true.
 Proof. exact Unfinished.done_not_unfinished. Qed.
 Print Assumptions done_not_unfinished.
 
-Theorem more_finished_is_sign : forall cfix fuel text acc toks k s',
+Theorem more_finished_is_sign : forall fuel text acc n toks k s',
   lex_all init_lstate (text ++ nl) = LOk s' -> in_string_or_rune s' = false ->
-  parse_whole true cfix fuel text = OSusp acc 0 toks k ->
-  curly_plain (text_tokens text) = true ->
+  parse_whole true true fuel text = OSusp acc n toks k ->
   unfinished text = Some false ->
   exists d a p, trun st0 (text_tokens text) = Some (d, a, p, true).
 Proof. exact Unfinished.more_finished_is_sign. Qed.
 Print Assumptions more_finished_is_sign.
 
-Theorem more_top_unfinished : forall cfix fuel text acc f s',
+Theorem more_top_unfinished : forall fuel text acc f s',
   lex_all init_lstate (text ++ nl) = LOk s' ->
-  parse_whole true cfix fuel text = OMoreTop acc f ->
-  curly_plain (text_tokens text) = true ->
+  parse_whole true true fuel text = OMoreTop acc f ->
   unfinished text = Some true.
 Proof. exact Unfinished.more_top_unfinished. Qed.
 Print Assumptions more_top_unfinished.
